@@ -17,7 +17,7 @@ func init() {
 		Explanation: "Decides the structural core of every sentence of C16 from the source of optimizeReordering and what it calls: (R-SORTGATE) the only effects of the reordering pass on the tree are the store of astNode.cost and a sort of root.children that executes only on the true edge of isBoolOpNode(root.node) for the same root — so only and/or operands move, and they are only permuted (a sort permutes in place; there is no append, removal or element store); " +
 			"(R-STABLE) the sort callee is sort.SliceStable/sort.Stable (sort.Slice is an insertion sort, hence stable, up to 12 elements, so no test with a short operand list can see the difference); (R-LESS) the comparator returns children[i].cost < children[j].cost, strict, on its own i and j, over the slice being sorted; " +
 			"(R-MONO) the value stored into root.cost is built from constants, len-terms, the result of getCosts and children's cost, where the last two reach the store only through float +, math.Max and phi (monotone in each argument), and getCosts returns the CostsMap entry of the name, else the class entry, else a constant — so raising one entry cannot lower any subtree cost and leaves subtrees not mentioning the name unchanged; with stability this is the 'never moves ahead / eventually after' clause. " +
-			"(R-PAIRBOOL) isBoolOpNode is exactly isAndOpNode || isOrOpNode over the table keys implemented by logic{and}/logic{or}. NOT decided: NaN costs (comparisons with NaN are not a strict weak order; outside the statement) and the concrete cost numbers.",
+			"(R-PAIRBOOL) isBoolOpNode is exactly isAndOpNode || isOrOpNode over the table keys implemented by logic{and}/logic{or}. (R-COSTALL) the cost of an `if` reads exactly the operand children (the indices calAndSetNodes emits as condition and branches, not the `fi` marker) and every other node adds the cost of every child. NOT decided: NaN costs (comparisons with NaN are not a strict weak order; outside the statement) and the concrete cost numbers.",
 		Run:       runC16,
 		Witnesses: c16Witnesses,
 	})
@@ -69,6 +69,7 @@ func runC16(w *World, r *Report) {
 	ruleSortGate(w, r, fn, set)
 	ruleMono(w, r)
 	rulePairBool(w, r)
+	ruleCostAll(w, r)
 }
 
 func ruleSortGate(w *World, r *Report, fn *ssa.Function, set map[*ssa.Function]bool) {
@@ -492,7 +493,7 @@ func constantInt(v interface{ ExactString() string }) (int64, bool) {
 
 var _ = types.Typ
 
-var c16Witnesses = []Witness{
+var c16Witnesses = append(wave4Witnesses, []Witness{
 	{Name: "sort-slice-unstable", Rule: "R-STABLE", Edits: []Edit{
 		{File: "compiler.go", Old: "	sort.SliceStable(root.children, func(i, j int) bool {", New: "	sort.Slice(root.children, func(i, j int) bool {"}}},
 	{Name: "less-not-strict", Rule: "R-LESS", Edits: []Edit{
@@ -516,4 +517,4 @@ var c16Witnesses = []Witness{
 		{File: "compiler.go", Old: "		return root.children[i].cost < root.children[j].cost", New: "		return root.children[j].cost > root.children[i].cost"}}},
 	{Name: "benign-gate-as-positive-if", Benign: true, Edits: []Edit{
 		{File: "compiler.go", Old: "	if !isBoolOpNode(root.node) {\n		return\n	}\n\n	// reordering child nodes based on node cost\n	sort.SliceStable(root.children, func(i, j int) bool {\n		return root.children[i].cost < root.children[j].cost\n	})", New: "	if isBoolOpNode(root.node) {\n		// reordering child nodes based on node cost\n		sort.SliceStable(root.children, func(i, j int) bool {\n			return root.children[i].cost < root.children[j].cost\n		})\n	}"}}},
-}
+}...)
